@@ -42,7 +42,12 @@ class TimerWheel(object):
         return t
 
     def live(self, owner=None):
-        return [t for t in self.timers if not t.cancelled and not t.fired and (owner is None or t.owner is owner)]
+        # fired and cancelled timers never come back: they are dropped from the list here, so that a run with thousands
+        # of heartbeat re-arms does not scan all of them at every step (order of the live ones is kept)
+        alive = [t for t in self.timers if not t.cancelled and not t.fired]
+        if len(alive) != len(self.timers):
+            self.timers = alive
+        return [t for t in alive if owner is None or t.owner is owner]
 
     def drop_owner(self, owner):
         for t in self.timers:
